@@ -137,6 +137,30 @@ ONE={
 "C15-B6":("sync `contains_key` removes an expired entry and queues a Remove op","expired unpurged entry; full cache; a later cold insert"),
 "C17-A6":("sync oversize check `new_weight > max as u32`","max_capacity > u32::MAX, full cache, popular candidate heavier than `max as u32`"),
 "C17-B6":("unsync `build_with_hasher` validates (ttl, ttl)","custom hasher + time_to_idle over 1000 years"),
+"C02-A7":("sync `insert_with_hash` returns early when the write queue is full","384 queued writes (another thread stalled inside maintenance); update of a present key"),
+"C02-B7":("sync `invalidate_all`: early return when `entry_count()==0` and the write queue is empty (cousin of C01-B)","invalidate_all between a sync's queue drain and its counter publish"),
+"C03-A7":("sync stale-op guard compares the shared EntryInfo (as C04-A2)","two threads update one key, ops queued in the opposite order of the map updates"),
+"C03-B7":("sync `apply_reads` guard compares last_modified (as C16-B5)","tti; reads queued in the opposite order of their clock readings"),
+"C04-A7":("sync maintenance evicts for capacity only if this run grew the cache","an excess that one run (500 evictions) cannot remove"),
+"C04-B7":("unsync `evict_lru_entries` returns early while the sketch is disabled","growing update in a cache that was never half full"),
+"C05-A7":("sync iterator filter returns 'not expired' early for dirty entries","ttl; insert not yet applied when its deadline passes; iterate"),
+"C05-B7":("unsync `last_modified()` reads the access-order timestamp","ttl; a hit, then iteration (or a lookup beyond one purge batch) between t+ttl and hit+ttl"),
+"C07-A7":("sync `invalidate` returns early when `contains_key` is false (as C02-A5)","tti; queued hit revives the entry"),
+"C07-B7":("sync `contains_key` returns true at once when no expiry is configured","no ttl/tti; contains_key after invalidate_all before the sweep"),
+"C08-A7":("sync `record_read_op`: `Full` and `Disconnected` arms swapped","read queue (384) full: another thread paused inside maintenance"),
+"C08-B7":("unsync `build_with_hasher` validates (ttl, ttl) (as C17-B6)","custom hasher + tti near Duration::MAX: first operation panics"),
+"C09-A7":("dropping one of exactly two cache handles stops the housekeeper","clone, drop the clone, then > 384 writes without sync()"),
+"C09-B7":("sketch enabled lazily inside `handle_upsert` under the read guard (self-deadlock)","one write batch taking a cache with a disabled sketch from below half to over capacity (beyond the periodic window)"),
+"C10-A7":("sync stale-op guard compares the shared EntryInfo (as C03-A7)","two threads insert one key with different weights, one preempted between map update and send"),
+"C10-B7":("sync `invalidate` queues no Remove op for a not yet admitted entry","invalidate(k) while maintenance is inside handle_upsert for k (no switch point): real threads"),
+"C11-A7":("sync update branch requires `old_weight != 0`","weigher returning 0 for a resident; update, then removal"),
+"C11-B7":("sync access-order expiry scan became the `else if` of the write-order scan","ttl and tti both set; idle-expired entry"),
+"C12-A7":("sync `apply_reads` moves an entry only if it is not dirty","get(k), insert(new), insert(k) queued together; k at the LRU front; popular newcomer"),
+"C12-B7":("unsync `admit` skips zero-weight victims","weigher returning 0 for the LRU resident"),
+"C13-A7":("unsync `has_enough_capacity`: `weight <= limit - ws` (as C08-A5)","over capacity when a new key arrives"),
+"C13-B7":("sync victim popularity summed in a u8, early exit removed","18 or more popular residents in the victim prefix of a heavy newcomer"),
+"C16-A7":("`set_instant_if_later`: compare under a read lock, store under a second write lock (as C02-A2)","two racing invalidate_all calls; iteration"),
+"C16-B7":("unsync `get` records the hit before the expiry test","tti; > 100 entries idle-expired at once; get of a leftover, then iteration"),
 "C17-B4":("unsync `with_everything` drops zero durations","time_to_live / time_to_idle of exactly 0"),
 }
 rows=[]
@@ -248,6 +272,23 @@ C05, C06 profiles), `C15-A6` (`{:?}` formatting is one of the extra pure
 observations of the C15 pairs, and its purity is monitored like that of
 `contains_key` / `iter`). `C17-A6` is reported by C13 (a popular candidate is
 rejected), not by C17: `policy()` and the differential histories of C17 agree.
+
+Seventh round (ids ending in `7`; again the twelve properties of the fifth
+round). 17 of 24 caught at once (several are variants of earlier changes).
+Strengthened after misses: `C04-A7` (C04 progress rule: an operation that runs
+the maintenance and grows nothing must bring an over-capacity cache within its
+capacity or evict a full batch), `C12-A7` (the lock-step model follows windows
+of queued gets *and* inserts: reads first, in recording order, then the writes;
+estimates are read after the run because only reads feed the estimator; a
+directed batch "get(a), insert(popular b), insert(a)"), `C16-A7` (STRESS for
+C16: iterating readers beside invalidate_all callers and writers, same oracle as
+C07's), `C07-A7` (clock steps to deadlines in the C07 profile), `C08-A7`
+(get-bursts in the SCHED programs of C08). `C13-B7` led to "big universe" cases
+(24..48 keys, capacities 16..64) and an operation that looks every key up n
+times in the C12/C13/C08 profiles; it is reported by C08 (overflow panic in the
+debug build), as are `C13-A7` and `C08-B7` by C08 / C17 respectively.
+`C03-A7`/`C10-A7` are reported by the committed regression replay of the repaired
+defect R1.
 
 Not caught (or caught only elsewhere), with the reason:
 * `C13-A5` — needs five invalidations still queued behind the newcomer's insert.
